@@ -69,7 +69,7 @@ ASSUMPTIONS = [
     'observed through a recording subclass of the predictive model (public interface)']
 REQUIRED = ['indiv', 'hier', 'filter', 'kind:gauss', 'kind:lognorm', 'kind:trunc', 'kind:pooled', 'kind:hetero',
             'noncentered', 'cov', 'cov_pooled', 'red', 'comp', 'bare', 'ids:unsorted', 'ids:default', 'stat',
-            'tight', 'wide', 'chains=1', 'draws=1', 'n_ids=1']
+            'tight', 'wide', 'chains=1', 'draws=1', 'n_ids=1', 'param_map_swap']
 
 UNSORTED_IDS = ['id-e', 'id-b', 'id-d', 'id-a', 'id-c']
 SAMPLERS = {'haario': 'HaarioBardenetACMC', 'metropolis': 'MetropolisRandomWalkMCMC'}
@@ -200,6 +200,7 @@ def _draw_common(draw, spec):
     spec['pick'] = draw(st.integers(0, 5))
     spec['pp_n'] = draw(st.integers(1, 4))
     spec['pp_seed'] = draw(st.integers(0, 9999))
+    spec['pp_swap'] = bool(gen.chance(draw, 0.35))
     spec['pp_times'] = gen.distinct(draw(gen.vec(gen.logu(0.05, 20.0), draw(st.integers(1, 3)))))
 
 
@@ -980,6 +981,18 @@ def _check_downstream(case, s, P, L, ctrl):
     if not L.bottom:
         kw = {}                                               # no individual dimension in the dataset
 
+    # The dataset may store two parameters under each other's MODEL names (the user's param_map says so): variable
+    # b holds the draws of model parameter a and vice versa.
+    ds_pop = ds
+    own = [n for n in plan['names'] if n not in plan['pmap']]
+    if s.get('pp_swap') and len(own) >= 2:
+        a, b = own[0], own[-1]
+        ds = ds.rename({a: '__tmp__'}).rename({b: a}).rename({'__tmp__': b})
+        plan['pmap'] = dict(plan['pmap'])
+        plan['pmap'][a] = b
+        plan['pmap'][b] = a
+        case.labels.append('param_map_swap')
+
     # ---- posterior predictive model over the individual predictive model
     with case.clause('predictive_individual'):
         pm = RecordingPredictiveModel(*plan['models']())
@@ -1044,6 +1057,8 @@ def _check_downstream(case, s, P, L, ctrl):
                 lik.fix_parameters(fixed_vals)
             case.equal([str(n) for n in lik.get_parameter_names()], plan['names'], 'likelihood parameter names')
             pw = chi.compute_pointwise_loglikelihood(lik, ds, param_map=dict(plan['pmap']), **kw)
+            case.equal([str(n) for n in lik.get_parameter_names()], plan['names'],
+                       'likelihood parameter names after compute_pointwise_loglikelihood(param_map=%r)' % plan['pmap'])
             n_obs = int(sum(len(t) for t in ll['times']))
             case.equal(tuple(pw.dims), ('chain', 'draw', 'observation'), 'dims of the pointwise log-likelihood')
             case.equal(tuple(pw.shape), (s['n_chains'], s['n_draws'], n_obs), 'shape of the pointwise log-likelihood',
@@ -1068,7 +1083,7 @@ def _check_downstream(case, s, P, L, ctrl):
             pop_pm = RecordingPopulationPredictiveModel(base, pm_pop)
             case.equal([str(n) for n in pop_pm.get_parameter_names()], [L.names[k] for k in pop_cols],
                        'population predictive model parameter names')
-            ppm = chi.PosteriorPredictiveModel(pop_pm, ds)
+            ppm = chi.PosteriorPredictiveModel(pop_pm, ds_pop)
             ppm.sample(times, n_samples=s['pp_n'], seed=s['pp_seed'], covariates=None)
             seen = pop_pm.__dict__.get('seen', [])
             case.equal(len(seen), s['pp_n'], 'number of population-predictive-model evaluations')
